@@ -34,6 +34,19 @@ type hiddenT struct{ X int }
 
 type PtrImpl struct{ K int }
 
+type UPos struct {
+	A int
+	b int
+}
+type LU []UPos
+type BoxU[E any] struct{ v E }
+type upHidden struct{ n int }
+type UAlias = upHidden
+type Pair[K comparable, V any] struct {
+	Key K
+	Val V
+}
+
 func (Impl) M() int     { return 1 }
 func (*PtrImpl) M() int { return 2 }
 func NewImpl() Impl     { return Impl{K: 9} }
@@ -282,6 +295,23 @@ func c13Exprs(e *Env) []vexpr {
 		vexpr{Expr: "@hiddenT{X: 1}", Type: "@hiddenT", Class: "reject-cross", Why: "unexported type", Kind: "unexported-type", Local: true},
 		vexpr{Expr: "@S{hid: 1}", Type: "@S", Class: "reject-cross", Why: "unexported field key", Kind: "unexported-field"},
 		vexpr{Expr: "@VS.hid", Type: "int", Class: "reject-cross", Why: "unexported field selector", Kind: "unexported-selector"},
+		// a literal without keys assigns the unexported fields too: legal only where they are visible
+		vexpr{Expr: "@UPos{1, 2}", Type: "@UPos", Class: "reject-cross", Why: "positional literal of a struct with an unexported field", Kind: "unexported-field-positional"},
+		vexpr{Expr: "&@UPos{1, 2}", Type: "*@UPos", Class: "reject-cross", Why: "positional literal of a struct with an unexported field", Kind: "unexported-field-positional", PtrLike: true},
+		vexpr{Expr: "[]@UPos{{1, 2}}", Type: "[]@UPos", Class: "reject-cross", Why: "positional literal (elided type) of a struct with an unexported field", Kind: "unexported-field-positional-elided", PtrLike: true},
+		vexpr{Expr: "[]*@UPos{{1, 2}}", Type: "[]*@UPos", Class: "reject-cross", Why: "positional literal (elided pointer type) of a struct with an unexported field", Kind: "unexported-field-positional-elided", PtrLike: true},
+		vexpr{Expr: "@LU{{1, 2}, {3, 4}}", Type: "@LU", Class: "reject-cross", Why: "positional literal (elided type) of a struct with an unexported field", Kind: "unexported-field-positional-elided", PtrLike: true},
+		vexpr{Expr: "map[@UPos]int{{1, 2}: 3}", Type: "map[@UPos]int", Class: "reject-cross", Why: "positional literal (elided key type) of a struct with an unexported field", Kind: "unexported-field-positional-elided", PtrLike: true},
+		vexpr{Expr: "@BoxU[int]{3}", Type: "@BoxU[int]", Class: "reject-cross", Why: "positional literal of a generic struct with an unexported field", Kind: "unexported-field-positional"},
+		vexpr{Expr: "@UAlias{1}", Type: "@UAlias", Class: "reject-cross", Why: "positional literal, through an exported alias, of a struct with an unexported field", Kind: "unexported-field-positional"},
+		vexpr{Expr: "@Pair[int, string]{Key: 1}", Type: "@Pair[int, string]", Class: "accept", Why: "literal of a generic type with two type arguments", Kind: "generic-lit-two-args"},
+		vexpr{Expr: "&@Pair[@N, []@S]{Key: 2}", Type: "*@Pair[@N, []@S]", Class: "accept", Why: "literal of a generic type with two type arguments", Kind: "generic-lit-two-args", PtrLike: true},
+		vexpr{Expr: "[]func(x int) int{nil, nil}", Type: "[]func(int) int", Class: "accept", Why: "literal whose element type is a function type that names its parameters", Kind: "func-type-named-params-in-literal", PtrLike: true},
+		vexpr{Expr: "map[string]func(a, b int) (sum int){\"k\": nil}", Type: "map[string]func(int, int) int", Class: "accept", Why: "literal whose element type is a function type that names its parameters", Kind: "func-type-named-params-in-literal", PtrLike: true},
+		vexpr{Expr: "(func(x @N) @N)(nil)", Type: "func(@N) @N", Class: "accept", Why: "conversion to a function type that names its parameters", Kind: "conversion-func-type-named-params"},
+		vexpr{Expr: "(func() (n int, err error))(nil)", Type: "func() (int, error)", Class: "accept", Why: "conversion to a function type that names its results", Kind: "conversion-func-type-named-params"},
+		vexpr{Expr: "@UPos{}", Type: "@UPos", Class: "accept", Why: "empty literal assigns no field", Kind: "unexported-field-empty-literal"},
+		vexpr{Expr: "@UPos{A: 1}", Type: "@UPos", Class: "accept", Why: "keyed literal naming exported fields only", Kind: "unexported-field-keyed-exported"},
 		vexpr{Expr: "float64(x) + 0.5", Type: "float64", Class: "reject", Why: "mentions an injector parameter (not package scope)", Kind: "param-ref", Param: "x int", Local: true},
 		// the parameter is spelled like something the package scope does declare: the copied
 		// expression would silently mean that other thing
@@ -717,6 +747,9 @@ func runValueCases(e *Env, rep *Report, exprs []vexpr, name string) {
 	var cases []c13Case
 	id := 0
 	for _, v := range exprs {
+		if v.Class == "" {
+			panic("c13: expression without a class: " + v.Expr)
+		}
 		for _, cross := range []bool{false, true} {
 			if cross && v.Local {
 				continue
